@@ -433,6 +433,25 @@ theorem appendConfig_inv (cf : Cfg) (a : Acc) (id : Nat) (ch : CF.Change) (fail 
   split
   · exact h
   · rename_i c' _
+    cases fail with
+    | true =>
+      -- the store failed: nothing is adopted, and nothing was stored
+      show AccInv (dispatch cf a [(id, 5, 0, c')] true).1
+      obtain ⟨h1, h2, h3⟩ := h
+      obtain ⟨c1, c2, c3, _⟩ := dispatch_cfg cf a [(id, 5, 0, c')] true
+      unfold AccInv OneCfg
+      rw [c1, c2]
+      refine ⟨h1, by omega, ?_⟩
+      intro e he hk5 hgt
+      rcases dispatch_log cf a [(id, 5, 0, c')] true e he with h4 | ⟨hf, _⟩
+      · exact h3 e h4 hk5 hgt
+      · exact absurd hf (by simp)
+    | false =>
+    show AccInv { (dispatch cf a [(id, 5, 0, c')] false).1 with
+      v := { (dispatch cf a [(id, 5, 0, c')] false).1.v with latest := c', latestIdx := lastIndex a.v + 1 },
+      lead := restartPeers { (dispatch cf a [(id, 5, 0, c')] false).1.lead with
+        cm := CM.setConfiguration (dispatch cf a [(id, 5, 0, c')] false).1.lead.cm (voterIds c') } c' }
+    generalize hfl : false = fail
     obtain ⟨h1, h2, h3⟩ := h
     obtain ⟨c1, c2, c3, c4⟩ := dispatch_cfg cf a [(id, 5, 0, c')] fail
     unfold AccInv OneCfg
@@ -839,5 +858,29 @@ theorem leaseLoop_role (fuel : Nat) (a : Acc) :
       split
       · exact Or.inr rfl
       · exact ih _
+
+end SV
+
+namespace SV
+
+/-- **C07: a configuration that could not be stored is not adopted.**  When the StoreLogs call of
+    `appendConfigurationEntry` fails, the server's latest configuration, its index and its log are
+    what they were (the defect repaired by the `fix:` commit recorded as F22, commit c773f69: the real routine used
+    to adopt the configuration all the same, so that a configuration held by no log became the one
+    the server acted on, and later its committed one). -/
+theorem appendConfig_store_failure_adopts_nothing (cf : Cfg) (a : Acc) (id : Nat) (ch : CF.Change) :
+    (appendConfig cf a id ch true).v.latest = a.v.latest ∧
+    (appendConfig cf a id ch true).v.latestIdx = a.v.latestIdx ∧
+    (appendConfig cf a id ch true).d.log = a.d.log := by
+  unfold appendConfig
+  split
+  · exact ⟨rfl, rfl, rfl⟩
+  · rename_i c' _
+    refine ⟨rfl, rfl, ?_⟩
+    show (applyAll a.d (if cf.restoreCommitted then [Write.stage a.v.commit] else [])).log = a.d.log
+    apply stage_log
+    intro w hw; split at hw
+    · exact ⟨_, by simpa using hw⟩
+    · simp at hw
 
 end SV
